@@ -221,7 +221,7 @@ def run_case(case) -> Outcome:
         _, r2s, _ = _funcs()
         rng = random.Random(case["seed"])
         top = 0x3F0000 if mode != "low" else 0x3F0000
-        offs = [0, 1, 0x7FFF, 0x8000, 0xFFFF, 0x10000, 0x1FFFFF, 0x200000] + [rng.randrange(0, top) for _ in range(120)]
+        offs = [0, 1, 0x7FFF, 0x8000, 0xFFFF, 0x10000, 0x1FFFFF, 0x200000, 0x377FFE, 0x378000, 0x37FFF0, 0x3EFFFE, 0x3F0000, 0x3F7FFE, 0x3F8000, 0x3FFFF0] + [rng.randrange(0, top) for _ in range(120)]
         offs = [o for o in dict.fromkeys(offs) if busmodel.builtin(mode).kind(busmodel.rom_to_snes(o, mode)) == "rom"]
         rng.shuffle(offs)
         if offs[0] == 0:
